@@ -266,6 +266,126 @@ def obs_log(rc, out, err):
     return ("entries", entries)
 
 
+BACKENDS = ["postgres", "mysql", "sqlite"]
+
+
+def log_blocks(out):
+    """`log` stdout -> [(version, [(action display line, text printed under it)])]; log.rs:62-97 prints per action the
+    non-empty trimmed statements, numbered i-j when there are several"""
+    res = []
+    cur = None
+    for line in out.splitlines():
+        m = re.match(r"^Version: (\d+)$", line)
+        if m:
+            res.append((int(m.group(1)), []))
+            cur = None
+            continue
+        m = re.match(r"^    (\d+)\. (.*)$", line)
+        if m and res and m.group(2).partition(": ")[0] in KINDS:
+            cur = [m.group(2), []]
+            res[-1][1].append(cur)
+            continue
+        if cur is not None:
+            if not line.strip():
+                cur = None
+            else:
+                cur[1].append(line.rstrip())
+    return [(v, [(d, "\n".join(b)) for d, b in acts]) for v, acts in res]
+
+
+def sql_blocks(out):
+    """`sql` stdout -> [(action display line, text printed under it)]; sql.rs:86-112 prints every statement (trimmed, empty
+    ones included), numbered i or i-j"""
+    res = []
+    cur = None
+    for line in out.splitlines():
+        m = re.match(r"^Action: (.*)$", line)
+        if m and m.group(1).partition(": ")[0] in KINDS:
+            cur = [m.group(1), []]
+            res.append(cur)
+            continue
+        if cur is not None:
+            cur[1].append(line.rstrip())
+    return [(d, "\n".join(b).rstrip()) for d, b in res]
+
+
+def expected_log_block(i, stmts):
+    st = [x.strip() for x in stmts if x.strip()]
+    if len(st) > 1:
+        return "\n".join("    %d-%d. %s" % (i, j + 1, x) for j, x in enumerate(st))
+    return "\n".join("       %s" % x for x in st)
+
+
+def expected_sql_block(i, stmts):
+    st = [x.strip() for x in stmts]
+    return "\n".join(("%d%s. %s" % (i, "-%d" % (j + 1) if len(st) > 1 else "", x)).rstrip() for j, x in enumerate(st)).rstrip()
+
+
+def norm_block(b):
+    return "\n".join(l.rstrip() for l in b.splitlines()).rstrip()
+
+
+def hcli_render(hcli, pdir):
+    p = subprocess.run([hcli, "render", pdir], capture_output=True, timeout=120)
+    try:
+        return json.loads(p.stdout.decode(errors="replace").strip().splitlines()[-1])
+    except Exception:
+        return {"error": "render helper failed: " + p.stderr.decode(errors="replace")[-300:]}
+
+
+def oracle_statements(o, ref, prefix_known):
+    """the statements the binary prints must be the statements the runtime would execute (reference: hcli render, which
+    builds them the way vespertide-macro does) — for the three backends. returns fails."""
+    fails = []
+    o["stmt_compared"] = {"log_migrations": 0, "sql_plans": 0}
+    if "error" in ref:
+        return fails
+    for b in BACKENDS:
+        lb = o["log_all"].get(b)
+        if lb is not None and lb["rc"] == 0 and "No migrations found." not in lb["out"]:
+            got = log_blocks(lb["out"])
+            want = []
+            usable = True
+            for e in ref["log"]:
+                acts = e["actions"]
+                if isinstance(acts, dict) or any(a.get(b) is None for a in acts):
+                    usable = False      # SQL generation fails for this backend: nothing to compare (the binary fails too)
+                    break
+                want.append((e["version"], [(a["display"], expected_log_block(i + 1, a[b])) for i, a in enumerate(acts)]))
+            if usable:
+                o["stmt_compared"]["log_migrations"] += len(want)
+                g = [(v, [(d, norm_block(t)) for d, t in acts]) for v, acts in got]
+                w = [(v, [(d, norm_block(t)) for d, t in acts]) for v, acts in want]
+                if g != w:
+                    k = next((i for i in range(min(len(g), len(w))) if g[i] != w[i]), min(len(g), len(w)))
+                    detail = ""
+                    if k < len(g) and k < len(w):
+                        ga, wa = g[k][1], w[k][1]
+                        j = next((i for i in range(min(len(ga), len(wa))) if ga[i] != wa[i]), min(len(ga), len(wa)))
+                        if j < len(ga) and j < len(wa):
+                            detail = " action %d %s: log prints %r, the runtime executes %r" % (j + 1, wa[j][0], ga[j][1][:300], wa[j][1][:300])
+                    fails.append(("log_equals_runtime", None, "log --backend %s: stored migration #%d differs from what the runtime would execute.%s" % (b, k + 1, detail)))
+        sb = o["sql_all"].get(b)
+        rs = ref["sql"]
+        if sb is not None and sb["rc"] == 0 and "error" not in rs:
+            got = [] if "No differences found." in sb["out"] else sql_blocks(sb["out"])
+            if rs.get("none"):
+                want = []
+            else:
+                acts = rs["actions"]
+                if isinstance(acts, dict) or any(a.get(b) is None for a in acts):
+                    continue
+                want = [(a["display"], expected_sql_block(i + 1, a[b])) for i, a in enumerate(acts)]
+            g = [(d, norm_block(t)) for d, t in got]
+            w = [(d, norm_block(t)) for d, t in want]
+            o["stmt_compared"]["sql_plans"] += 1
+            if g != w:
+                j = next((i for i in range(min(len(g), len(w))) if g[i] != w[i]), min(len(g), len(w)))
+                detail = " first difference at action %d: sql prints %r, expected %r" % (j + 1, g[j] if j < len(g) else None, w[j] if j < len(w) else None)
+                fails.append(("sql_renders_diff", 0, "sql --backend %s does not print the statements of the plan diff lists.%s" % (b, detail[:700])))
+    return fails
+
+
 def g_o_diff(o):
     return {"err": "OD_err", "none": "OD_none"}.get(o[0]) or "(OD_changes %s)" % glist(gobs(a) for a in o[1])
 
@@ -355,12 +475,30 @@ def observe(hcli, pdir, cfg, message, fill_mode, backend, tag):
     rc, out, err = run_cmd(["diff"], pdir)
     o["diff"] = obs_diff(rc, out)
     o["diff_rc"] = rc
-    rc, out, err = run_cmd(["sql", "--backend", backend], pdir)
-    o["sql"] = obs_sql(rc, out, err)
+    ref = hcli_render(hcli, pdir)
+    o["sql_all"], o["log_all"] = {}, {}
+    for b in BACKENDS:
+        rc, out, err = run_cmd(["sql", "--backend", b], pdir)
+        o["sql_all"][b] = {"rc": rc, "out": out, "qerr": sqlgen_failure(rc, err)}
+        if b == backend:
+            o["sql"] = obs_sql(rc, out, err)
+        rc, out, err = run_cmd(["log", "--backend", b], pdir)
+        o["log_all"][b] = {"rc": rc, "out": out, "qerr": sqlgen_failure(rc, err)}
+        if b == backend:
+            o["log"] = obs_log(rc, out, err)
     rc, out, err = run_cmd(["status"], pdir)
     o["status"] = obs_status(rc, out)
-    rc, out, err = run_cmd(["log", "--backend", backend], pdir)
-    o["log"] = obs_log(rc, out, err)
+    o["stmt_fails"] = oracle_statements(o, ref, None)
+    # the baselines the runtime renders against (computed with the real apply_action, the way the macro does)
+    g_log_b = "None"
+    g_sql_b = "None"
+    if "error" not in ref:
+        g_log_b = "(Some %s)" % glist(e["baseline_g"] for e in ref["log"])
+        if "baseline_g" in ref["sql"]:
+            g_sql_b = "(Some %s)" % ref["sql"]["baseline_g"]
+    for b in BACKENDS:          # keep the rows small: the raw texts are only needed by the statement oracle above
+        o["sql_all"][b].pop("out")
+        o["log_all"][b].pop("out")
     # revision
     fills = []
     if fill_mode in ("all", "all_pty"):
@@ -408,8 +546,9 @@ def observe(hcli, pdir, cfg, message, fill_mode, backend, tag):
     else:
         o["rev"] = "err"
     o["wrote"] = wrote
-    term = "(mkCli %s %s %s %s %s %s %s %s %s)" % (gproject, gs(message), glist(gs(f) for f in fills), gbool(tty),
-                                                  g_o_diff(o["diff"]), g_o_sql(o["sql"]), g_o_status(o["status"]), g_o_log(o["log"]), grev)
+    term = "(mkCli %s %s %s %s %s %s %s %s %s %s %s)" % (gproject, gs(message), glist(gs(f) for f in fills), gbool(tty),
+                                                        g_o_diff(o["diff"]), g_o_sql(o["sql"]), g_o_status(o["status"]), g_o_log(o["log"]), grev,
+                                                        g_log_b, g_sql_b)
     versions = [r["version"] for _, _, r in migs]
     return {"tag": tag, "term": term, "obs": o, "config": cfg, "message": message, "fills": fills, "tty": tty, "backend": backend,
             "models": {n: open(os.path.join(md, n)).read() for n, _ in models},
@@ -482,6 +621,7 @@ def oracle_c13(row, post):
         if po["diff"][0] == "err" and d[0] != "err":
             # an overwritten migration (finding 3) breaks the history as well
             fails.append(("revision_output_loadable", over if o["rev_changed"] else 1, "after `revision` wrote %s, `diff` exits 1" % o["wrote"]["file"]))
+    fails += o.get("stmt_fails", [])
     # log shows every stored migration
     lg = o["log"]
     if lg[0] == "entries" and sorted(v for v, _ in lg[1]) != sorted(row["versions"]):
@@ -567,6 +707,107 @@ def run_corpus_case(hcli, base, path):
     return rows
 
 
+# ---------------------------------------------------------------------------------- targeted streams around the fill logic
+FILL_TYPES = {"text": ("text", "'x'", "'y'"), "integer": ("integer", 0, 1),
+              "enum": ({"kind": "enum", "name": "st", "values": ["a", "b"]}, "'a'", "'b'")}
+
+
+def fill_streams():
+    """(name, [models step 0, models step 1], revision input of step 1): one column `c` of table `acct` that becomes NOT NULL
+    (default kept / removed / changed / added / never there) or is added NOT NULL (with / without default), enum and non-enum,
+    each driven without terminal, with --fill-with and through a pty"""
+    out = []
+    ID = {"name": "id", "type": "integer", "nullable": False, "primary_key": True}
+
+    def col(ty, nullable, default):
+        c = {"name": "c", "type": ty, "nullable": nullable}
+        if default is not None:
+            c["default"] = default
+        return c
+
+    def tbl(*cols):
+        return {"acct.json": {"name": "acct", "columns": [ID, {"name": "note", "type": "text", "nullable": True}] + list(cols)}}
+    for tn, (ty, d1, d2) in FILL_TYPES.items():
+        trans = {"kept": (d1, d1), "removed": (d1, None), "changed": (d1, d2), "nodefault": (None, None), "added": (None, d1)}
+        for mode in ("none", "all", "pty"):
+            for k, (a, b) in trans.items():
+                out.append(("notnull-%s-%s-%s" % (tn, k, mode), [tbl(col(ty, True, a)), tbl(col(ty, False, b))], mode))
+            for k, d in (("nodefault", None), ("default", d1)):
+                out.append(("addcol-%s-%s-%s" % (tn, k, mode), [tbl(), tbl(col(ty, False, d))], mode))
+    return out
+
+
+def run_fill_stream(hcli, base, idx, spec, seed):
+    name, steps, mode = spec
+    rng = random.Random(seed * 31 + idx)
+    cfg = {"modelsDir": "models", "migrationsDir": "migrations", "tableNamingCase": "snake", "columnNamingCase": "snake",
+           "migrationFormat": rng.choice(["json", "json", "yaml"])}
+    pdir = os.path.join(base, "f%03d" % idx)
+    shutil.rmtree(pdir, ignore_errors=True)
+    write_project(pdir, cfg)
+    backend = rng.choice(BACKENDS)
+    rows = []
+    for si, models in enumerate(steps):
+        write_models(pdir, cfg, {rel: json.dumps(t, indent=1) for rel, t in models.items()})
+        a = observe(hcli, pdir, cfg, "step %d" % si, "all" if si == 0 else mode, backend, "fill:%s:%d:a" % (name, si))
+        rows.append(a)
+        if "skip" in a:
+            break
+        b = observe(hcli, pdir, cfg, "again", "all", backend, "fill:%s:%d:b" % (name, si))
+        rows.append(b)
+        if "skip" in b:
+            break
+    return rows
+
+
+def run_fill_streams(hcli, base, seed):
+    specs = fill_streams()
+    rows = []
+    with ThreadPoolExecutor(max_workers=12) as ex:
+        for r in ex.map(lambda ie: run_fill_stream(hcli, base, ie[0], ie[1], seed), list(enumerate(specs))):
+            rows += r
+    return rows
+
+
+def c12_part(tier, seed):
+    """for C12 (whatever the tool writes, every command reads back unchanged): the revision -> reload clause on the targeted
+    fill streams, on the real binary only (no Coq).  returns dict(ok, details, failing_input)"""
+    hcli, err = build_all()
+    if err:
+        return {"ok": False, "details": {"build_error": err}, "failing_input": None}
+    base = os.path.join(WORK, "c12part_%s_%s" % (tier, seed))
+    shutil.rmtree(base, ignore_errors=True)
+    os.makedirs(base)
+    rows = [r for r in run_fill_streams(hcli, base, seed) if "skip" not in r]
+    bad = []
+    wrote = 0
+    for i, r in enumerate(rows):
+        o = r["obs"]
+        if o["rev"] == "wrote-unparsable":
+            bad.append((r, "revision wrote a file the parser rejects"))
+        if o["rev"] != "wrote":
+            continue
+        wrote += 1
+        post = rows[i + 1] if i + 1 < len(rows) and rows[i + 1]["tag"].rsplit(":", 1)[0] == r["tag"].rsplit(":", 1)[0] else None
+        if post is None:
+            continue
+        po = post["obs"]
+        for cmd, v in (("diff", po["diff"][0]), ("status", po["status"]), ("log", po["log"][0]), ("sql", po["sql"][0])):
+            if v == "err" and o["diff"][0] != "err":
+                bad.append((r, "after `revision` wrote %s, `%s` exits 1" % (o["wrote"]["file"], cmd)))
+                break
+        if po["diff"][0] == "changes":
+            bad.append((r, "after `revision` wrote %s, `diff` still lists %d change(s)" % (o["wrote"]["file"], len(po["diff"][1]))))
+    details = {"streams": len(fill_streams()), "observations": len(rows), "revisions_written": wrote, "failures": [(r["tag"], t) for r, t in bad][:10]}
+    fi = None
+    if bad:
+        r = bad[0][0]
+        fi = {"config": r["config"], "models": r["models"], "migrations": r["migrations"], "message": r["message"], "fills": r["fills"],
+              "tty": r["tty"], "what": bad[0][1], "written": r["obs"].get("wrote")}
+    shutil.rmtree(base, ignore_errors=True)
+    return {"ok": not bad, "details": details, "failing_input": fi}
+
+
 def sizes(tier):
     if tier == "thorough":
         return {"evolutions": 700, "steps": 4, "tree_evolutions": 500, "per_shard": 25}
@@ -619,6 +860,7 @@ def run_cli(tier, seed):
     rows = []
     for f in sorted(glob.glob(os.path.join(ROOT, "corpus", "cli", "c13_*.json"))):
         rows += run_corpus_case(hcli, base, f)
+    rows += run_fill_streams(hcli, base, seed)
     evos = gen_evolutions(hcli, seed, sz["evolutions"], sz["steps"])
     with ThreadPoolExecutor(max_workers=12) as ex:
         for r in ex.map(lambda ie: run_evolution(hcli, base, ie[0], ie[1], seed), list(enumerate(evos))):
